@@ -1,6 +1,7 @@
 import MindsVerif.Lemmas.DecodeMain
 import MindsVerif.Lemmas.Encode
 import MindsVerif.Lemmas.Ident
+import MindsVerif.Lemmas.Codec
 import MindsVerif.Model.LexTab
 import MindsVerif.Gen.Lex_sqlite
 import MindsVerif.Gen.Lex_mysql
@@ -127,6 +128,66 @@ theorem C04_encode_partial (v rest : List Char) (hv : encOK v = true) (hr : rest
   have := scanGo_src '\'' true (by decide) rest hr (encItems v) e2
   simp [constantToString, Denote.scan, e1, this]
 
+/-! ## T4.2 ∘ T4.1: `decode (encode v) = v` for the code as it is -/
+
+/-- **MindsDB round trip, partial.** `parse (Constant(v).to_string())` holds `v` again for every value in which every
+backslash is followed by a character other than `\ ' "` (else KF-C04-5), that does not start or end with a
+quote (`edgeQuote` of its printed items, KF-C04-2) and has no two adjacent quotes (`escQuoteRun`, KF-C04-3). -/
+theorem C04_roundtrip_mindsdb_partial (v rest : List Char) (hv : encOK v = true) (hr : rest.head? ≠ some '\'')
+    (h2 : edgeQuote '\'' (Denote.encItems v) = false) (h3 : escQuoteRun '\'' (Denote.encItems v) = false) :
+    readString .mindsdb (constantToString v ++ rest) = some (v, rest) :=
+  Codec.roundtrip_mindsdb v rest hv hr h2 h3
+
+/-- **sqlite / mysql round trip, partial.** Exactly the values without a single quote are read back (any
+backslashes included); a quote prints as `\'`, which these lexers do not read (KF-C04-4). -/
+theorem C04_roundtrip_simple_partial (d : Dialect) (hd : d ≠ .mindsdb) (v rest : List Char)
+    (hv : ∀ c ∈ v, c ≠ '\'') : readString d (constantToString v ++ rest) = some (v, rest) :=
+  Codec.roundtrip_simple d hd v rest hv
+
+/-- the round trip fails in each excluded class -/
+theorem C04_witness_roundtrip :
+    readString .mindsdb (constantToString ['a', '\'', '\'', 'b']) = some (['a', '\'', 'b'], []) ∧
+    readString .mindsdb (constantToString ['\'', 'a']) = some (['a'], []) ∧
+    readString .mindsdb (constantToString ['\\']) = some ([], []) ∧
+    readString .sqlite (constantToString ['a', '\'', 'b']) = some (['a', '\\'], ['b', '\'']) := by decide
+
+/-! ## the codec of `docs/proposed_fixes/C04_2.diff` (`Model/Codec.lean`): the FULL statements hold, in every dialect
+
+These are theorems about the proposed code (one scan `unescape_string` in the three grammars, the MindsDB string
+regexes in the three lexers, `Constant.get_string` escaping backslashes).  The check ties `Codec` to the live code as
+soon as `Gen.RenderPins.codecFixed = true` (or under `VERIF_REPO=<patched tree>`). -/
+
+/-- full decoding statement for a reader -/
+def C04_full_decode_reader (read : List Char → Option (List Char × List Char)) : Prop :=
+  (∀ (items : List Item) (rest : List Char), WF '\'' true items → rest.head? ≠ some '\'' →
+    read (srcLit '\'' items ++ rest) = some (denote '\'' items, rest)) ∧
+  (∀ (items : List Item) (rest : List Char), WF '"' false items →
+    read (srcLit '"' items ++ rest) = some (denote '"' items, rest))
+
+/-- **T4.1 (codec), full**: every specification literal, single or double quoted, any escapes -/
+theorem C04_codec_decode : C04_full_decode_reader Codec.readString :=
+  ⟨fun items rest hw hr => Codec.read_src items rest hw hr, fun items rest hw => Codec.read_src_dquote items rest hw⟩
+
+/-- **T4.2 (codec), full**: every string value prints to one specification literal denoting it -/
+theorem C04_codec_encode (v rest : List Char) (hr : rest.head? ≠ some '\'') :
+    Denote.scan '\'' true (Codec.constantToString v ++ rest) = some (Codec.encItems v, rest) ∧
+      denote '\'' (Codec.encItems v) = v := by
+  obtain ⟨e1, e2, e3⟩ := Codec.enc_body v
+  refine ⟨?_, e3⟩
+  have := scanGo_src '\'' true (by decide) rest hr (Codec.encItems v) e2
+  simp [Codec.constantToString, Denote.scan, e1, this]
+
+/-- **`decode (encode v) = v` (codec), full**: all strings, all three dialects -/
+theorem C04_codec_roundtrip (v rest : List Char) (hr : rest.head? ≠ some '\'') :
+    Codec.readString (Codec.constantToString v ++ rest) = some (v, rest) :=
+  Codec.roundtrip v rest hr
+
+/-- the inputs of the witnesses above under the codec -/
+example : Codec.readString (srcLit '\'' [.qq]) = some (['\''], []) ∧
+    Codec.readString (srcLit '\'' [.ch 'a', .esc '\\', .ch 'b']) = some (['a', '\\', 'b'], []) ∧
+    Codec.readString (srcLit '\'' [.ch 'a', .esc '\'', .esc '\'', .ch 'b']) = some (['a', '\'', '\'', 'b'], []) ∧
+    Codec.readString (Codec.constantToString ['\\']) = some (['\\'], []) := by decide
+
 /-! ## T4.4 integers -/
 
 /-- the decimal text of every natural number consists of digits (so `\d+` matches all of it) and the
@@ -139,8 +200,16 @@ theorem C04_integer (n : Nat) :
 /-- (SLY's `@_` decorator stores each pattern wrapped in one group) -/
 example : Lex_mindsdb.QUOTE_STRING = "('(?:\\\\.|[^'])*(?:''(?:\\\\.|[^'])*)*')" := by decide
 example : Lex_mindsdb.DQUOTE_STRING = "(\"(?:\\\\.|[^\"])*\")" := by decide
-example : Lex_sqlite.QUOTE_STRING = "('[^']*')" ∧ Lex_mysql.QUOTE_STRING = "('[^']*')" := by decide
-example : Lex_sqlite.DQUOTE_STRING = "(\"[^\"]*\")" ∧ Lex_mysql.DQUOTE_STRING = "(\"[^\"]*\")" := by decide
+/-- sqlite / mysql string regexes: either the escape-less ones of the pinned tree, or — once
+`docs/proposed_fixes/C04_2.diff` is live (`codecFixed`) — the same regexes as the MindsDB lexer -/
+example :
+    (RenderPins.codecFixed = false ∧
+      Lex_sqlite.QUOTE_STRING = "('[^']*')" ∧ Lex_mysql.QUOTE_STRING = "('[^']*')" ∧
+      Lex_sqlite.DQUOTE_STRING = "(\"[^\"]*\")" ∧ Lex_mysql.DQUOTE_STRING = "(\"[^\"]*\")") ∨
+    (RenderPins.codecFixed = true ∧
+      Lex_sqlite.QUOTE_STRING = Lex_mindsdb.QUOTE_STRING ∧ Lex_mysql.QUOTE_STRING = Lex_mindsdb.QUOTE_STRING ∧
+      Lex_sqlite.DQUOTE_STRING = Lex_mindsdb.DQUOTE_STRING ∧ Lex_mysql.DQUOTE_STRING = Lex_mindsdb.DQUOTE_STRING) := by
+  decide
 example : Lex_mindsdb.ID = "((?:([a-zA-Z_$0-9]*[a-zA-Z_$]+[a-zA-Z_$0-9]*)|(?:`([^`]+)`)))" ∧
     Lex_sqlite.ID = Lex_mindsdb.ID ∧ Lex_mysql.ID = Lex_mindsdb.ID := by decide
 example : Lex_mindsdb.FLOAT = "(\\d+\\.\\d+)" ∧ Lex_sqlite.FLOAT = "(\\d+\\.\\d*)" ∧ Lex_mysql.FLOAT = "(\\d+\\.\\d*)" := by decide
